@@ -60,6 +60,12 @@ func (c *checkSchema) checkType(name string, typ ischema.Type, ss map[string]isc
 		panic(errs.ErrRuntimeFailure.F())
 	}()
 
+	if typ.Schema.RootNode() == nil {
+		// The text of the type has no value at all (it is empty, blank or only
+		// a user comment).
+		panic(kit.NewJSchemaError(typ.RootFile, errs.ErrEmptyType.F(name)))
+	}
+
 	c.checkNode(typ.Schema.RootNode(), ss)
 }
 
@@ -214,6 +220,9 @@ func (c *checkSchema) ensureShortcutKeysAreValid(node *ischema.ObjectNode) error
 		if err != nil {
 			return lexeme.NewError(v.Lex, err)
 		}
+		if s.RootNode() == nil {
+			return lexeme.NewError(v.Lex, errs.ErrEmptyType.F(v.Key))
+		}
 		actualType := actualRootType(s, c.rootSchema)
 
 		if actualType != json.TypeString {
@@ -238,6 +247,10 @@ func actualRootTypeOf(s, root *ischema.ISchema, visited map[*ischema.ISchema]str
 	}
 	visited[s] = struct{}{}
 	defer delete(visited, s)
+
+	if s.RootNode() == nil { // a type without a value has no determinable type
+		return json.TypeMixed
+	}
 
 	t := s.RootNode().Type()
 	if t != json.TypeMixed {
